@@ -27,7 +27,8 @@ class VirtualFileContainer(object):
         self.buffer = []
         if buffer:
             self.original_buffer = copy.deepcopy(buffer)
-            self.buffer = buffer
+            # The readers compare slices with lists and the writers append and assign: bytes-like input becomes a list
+            self.buffer = buffer if isinstance(buffer, list) else list(buffer)
 
     def add_files(self, file_list):
         """
